@@ -16,7 +16,7 @@ outputs (`store`d boundaries, used values); it does not look at the model. -/
 namespace Driver.C12
 open Counters
 
-inductive Kind | g | w | e | k | i | none
+inductive Kind | g | w | e | k | i | c | none
 deriving DecidableEq
 
 structure St where
@@ -382,6 +382,47 @@ def stepC (st : St) (icd : Bool) (ws : List String) (out : String) : St × Strin
       ({ st with cs := cs', opending := st.opending || told, ospent := st.ospent + d }, verdict Option.none m out)
   | _ => (st, "BAD op")
 
+/-! ### C: the real `Icd::send_check_in` (counter decrypted from the Check-In datagram) -/
+
+def firstBad (rs : List String) : String :=
+  match rs.find? (fun r => r.startsWith "ORA") with
+  | some r => r
+  | Option.none => match rs.find? (fun r => r ≠ "ok") with
+    | some r => r
+    | Option.none => "ok"
+
+def stepCW (st : St) (ws : List String) (out : String) : St × String :=
+  let o := words out
+  match ws with
+  | ["checkin"] =>
+    -- `send_check_in` = `next()` -> message out -> `advance_counter` (store when told)
+    let expect := s!"{st.cs.ctr.next} {optS st.cs.ctr.advance.2}"
+    match o with
+    | [c, s] =>
+      let (st1, r1) := stepC st true ["use"] c
+      let (st2, r2) := stepC st1 true ["advst"] s
+      (st2, firstBad [r1, r2])
+    | _ =>
+      let (st1, _) := stepC st true ["use"] "?"
+      let (st2, _) := stepC st1 true ["advst"] "?"
+      (st2, s!"DIS {expect}")
+  | ["checkincrash", how, is] =>
+    let adv := st.cs.ctr.advance.2
+    -- what the harness can see of the store: nothing if the power went before it became durable
+    let (advOp, stored, hw) : String × String × String := match adv with
+      | some b => if how = "a" then ("advst", toString b, "died") else ("adv", "-", "died")
+      | Option.none => ("advst", "-", "done")
+    let (c, s, h, nx) : String × String × String × String := match o with
+      | [c, s, h, nx] => (c, s, h, nx)
+      | _ => ("?", "?", "?", "?")
+    let (st1, r1) := stepC st true ["use"] c
+    -- a store that did not become durable is not reported: feed the model's own answer
+    let (st2, r2) := stepC st1 true [advOp] (if advOp = "adv" then optS adv else s)
+    let (st3, r3) := stepC st2 true ["boot", is] nx
+    let r4 := if s = stored ∧ h = hw then "ok" else s!"DIS {st.cs.ctr.next} {stored} {hw} {st3.cs.ctr.next}"
+    (st3, firstBad [r1, r2, r3, r4])
+  | _ => stepC st true ws out
+
 def step (st : St) (line : String) : St × String :=
   let (op, out) := splitArrow line
   match words op with
@@ -395,12 +436,12 @@ def step (st : St) (line : String) : St × String :=
       | some d0 => ({ kind := .e, es := ESys.boot d0, odur := d0,
                       oon := match d0 with | some d => d < eTop | Option.none => true }, "case")
       | Option.none => ({}, "BAD d0")
-    else if k = "k" ∨ k = "i" then
+    else if k = "k" ∨ k = "i" ∨ k = "C" then
       match rest with
       | [ds, es, is] =>
         match parseD0 ds, es.toNat?, is.toNat? with
         | some d0, some ep, some ini =>
-          ({ kind := if k = "k" then .k else .i, cs := CSys.boot d0 ini ep, odur := d0, oepoch := ep,
+          ({ kind := if k = "k" then .k else if k = "C" then .c else .i, cs := CSys.boot d0 ini ep, odur := d0, oepoch := ep,
              ospent := ep, oon := ep ≤ 16777216 }, "case")
         | _, _, _ => ({}, "BAD header")
       | _ => ({}, "BAD header")
@@ -412,6 +453,7 @@ def step (st : St) (line : String) : St × String :=
     | .e => stepE st ws out
     | .k => stepC st false ws out
     | .i => stepC st true ws out
+    | .c => stepCW st ws out
     | .none => (st, "BAD no case")
 
 def run : IO UInt32 := Driver.runLoop ({} : St) step
